@@ -78,8 +78,15 @@ def model_fold(groups, seq):
     return enabled, flags
 
 
+ILL_FORMED = ['(declare-const broken)', '(declare-fun brokenf)', '(define-fun brokeng ())', '(declare-const)']
+
+
 def make_input(presence, variant):
     lines = ['(set-logic ALL)', '(declare-const p Bool)']
+    if variant % 3 == 0:
+        # an ill-formed declaration (ddSMT's own intermediate inputs have them) in front of
+        # the well-formed ones must not hide them from theory detection
+        lines.append(ILL_FORMED[(variant // 3) % len(ILL_FORMED)])
     for t in AUTO:
         if presence[t]:
             d = THEORY_DECLS[t]
